@@ -305,6 +305,9 @@ def _get_numpy_value(
     """
     if val is None:
         return None
+    if val.is_graph_input():
+        # An initializer that is also a graph input is only a default: the caller may override it.
+        return None
     const_value = val.const_value
     if const_value is not None:
         if dtype is not None and const_value.dtype != dtype:
